@@ -20,7 +20,7 @@ from ..models.mpt import RefMPT, bytes_of, nibbles_of
 
 ID = "C09"
 LEVEL = "exploration"
-RUNS = {"quick": 2500, "thorough": 60000}
+RUNS = {"quick": 10000, "thorough": 150000}
 RULE = (
     "each run: one HexaryTrie (prune on/off, lru-cache knob) with a seeded initial history, 1-2 walker actors (own "
     "fog, with or without TrieFrontierCache, query law nearest_unknown / nearest_right with a fresh seeded key per "
